@@ -58,8 +58,13 @@ pub fn accessors_agree<K: Fam>(e: &Enr<K>, s: &Snap, st: &mut Stats) -> Result<b
     if owned != s.pairs {
         return Err("into_iter() yields other pairs than iter()".into());
     }
-    if e.get_raw_rlp(b"\xffabsent").is_some() {
-        return Err("get_raw_rlp reports a value for an absent key".into());
+    // a key that is not in the record (made longer until it is not)
+    let mut absent = b"\xffabsent".to_vec();
+    while s.pairs.iter().any(|(k, _)| *k == absent) {
+        absent.push(b'!');
+    }
+    if e.get_raw_rlp(&absent).is_some() || e.get(&absent).is_some() {
+        return Err("get_raw_rlp / get report a value for an absent key".into());
     }
     let want_ip4 = raw(b"ip").and_then(|r| raw_as_ip4(&r));
     if e.ip4() != want_ip4 {
